@@ -128,6 +128,11 @@ mixed do_op (string s) {
     enable_commands ();
     VL ("r living " + me);
     break;
+  case "rp":      // replace_program by the inherited program that has no heart_beat(); applied at the top of the backend loop
+    if (!clonep (this_object ()) || !sizeof (inherit_list (this_object ()))) { VL ("r rp " + me + " !none"); break; }
+    replace_program ("/c11/base");
+    VL ("r rp " + me);
+    break;
   case "burn": {  // use up evaluation cost
     int i, x = 0;
     for (i = 0; i < 400; i++) x += i;
